@@ -801,6 +801,119 @@ def names_stratum(ctx):
     shutil.rmtree(d, ignore_errors=True)
 
 
+# ----------------------------------------------------------------------------- two writers of one key; the cache directory
+def _hammer(args):
+    """one process saving ITS payload under the shared name again and again through the shipped save_fn"""
+    path, payload, n = args
+    from mxlpy.parallel import Cache
+    c = Cache()
+    for _ in range(n):
+        c.save_fn(Path(path), payload)
+    return os.getpid()
+
+
+def writers_stratum(ctx):
+    """(a) the two-writers model through the driver: random schedules and cuts — under the result file's name there is, after
+    EVERY operation, nothing or one writer's complete result (the theorem's statement, executed); (b) the real thing: two
+    processes save different payloads under ONE name at the same time while this process keeps loading the file: every load
+    must give one of the two payloads, completely"""
+    rng = ctx.rng
+    if ctx.driver_ok:
+        reqs = []
+        for _ in range(ctx.n(60, 1500)):
+            n = rng.choice([0, 1, 2, 5, 9])
+            reqs.append({"size": n, "cutA": rng.randrange(n + 4), "cutB": rng.randrange(n + 4),
+                         "schedule": [rng.choice("AB") for _ in range(rng.randint(0, 2 * n + 6))]})
+        for rq, m in zip(reqs, driver.call_batch([{"op": "c19", "writers": rq} for rq in reqs])):
+            case = {"writers_model": rq}
+            ctx.count(case, f"writers:model:size{rq['size']}:{'cut' if min(rq['cutA'], rq['cutB']) < rq['size'] + 2 else 'complete'}")
+            ok = {json_key("absent"), json_key([1, rq["size"]]), json_key([2, rq["size"]])}
+            bad = [x for x in m["seen"] if json_key(x) not in ok]
+            ctx.judge(case, {"partial_seen": bad[:2], "fold_same": m["same"]}, {"partial_seen": [], "fold_same": True}, None,
+                      what="two writers, one result file (model): after every operation absent or a complete result")
+    # the real writers
+    d = SCRATCH / f"writers-{os.getpid()}"
+    shutil.rmtree(d, ignore_errors=True)
+    d.mkdir(parents=True)
+    from mxlpy.parallel import Cache
+    cache = Cache(tmp_dir=d)
+    for rep in range(ctx.n(2, 12)):
+        name = cache.name_fn(f"shared key {rep}")
+        pa, pb = ["A"] * (50 + 400 * rep), {"B": list(range(30 + 300 * rep))}
+        path = d / name
+        seen, errors = set(), []
+        with cf.ProcessPoolExecutor(max_workers=2) as ex:
+            futs = [ex.submit(_hammer, (str(path), pl, 150)) for pl in (pa, pb)]
+            while not all(f.done() for f in futs):
+                if path.exists():
+                    try:
+                        v = cache.load_fn(path)
+                        seen.add("A" if v == pa else ("B" if v == pb else "other"))
+                    except FileNotFoundError:
+                        pass
+                    except Exception as e:  # noqa: BLE001
+                        errors.append(type(e).__name__)
+            pids = [f.result() for f in futs]
+        left = sorted(x for x in os.listdir(d) if x != name and x.startswith(name))
+        case = {"writers_real": rep}
+        ctx.count(case, "writers:real")
+        ctx.judge(case, {"load_errors": errors[:3], "values": sorted(seen - {"A", "B"}), "temporaries_left": left, "pids_differ": pids[0] != pids[1]},
+                  {"load_errors": [], "values": [], "temporaries_left": [], "pids_differ": True}, None,
+                  what="two processes saving under one name while a reader loads: only complete payloads, no temporaries left")
+    shutil.rmtree(d, ignore_errors=True)
+
+
+def json_key(x):
+    import json
+    return json.dumps(x)
+
+
+def dirfn(v):
+    return v + 1
+
+
+def dir_stratum(ctx):
+    """the cache DIRECTORY: nested and not there yet, partly there (a run killed inside `mkdir(parents=True)`), removed between
+    two runs, there already — a cached run returns the uncached results every time and recomputes exactly what is not on
+    disk (model: an empty directory is the empty file system); a FILE where the directory should be is an error, not a result"""
+    from mxlpy.parallel import Cache, parallelise
+    base = SCRATCH / f"dir-{os.getpid()}"
+    inputs = [("a", 1), ("b", 2), ("c", 3)]
+    want = [(k, v + 1) for k, v in inputs]
+    calls_all = 3
+    for name, prep in [("nested-missing", lambda r: None), ("parents-partly-there", lambda r: (r / "x").mkdir(parents=True)),
+                       ("already-there", lambda r: (r / "x" / "y" / "z").mkdir(parents=True)),
+                       ("removed-between-runs", "rm"), ("file-in-the-way", lambda r: (r.mkdir(parents=True), (r / "x").write_text("not a directory")))]:
+        shutil.rmtree(base, ignore_errors=True)
+        target = base / "x" / "y" / "z"
+        R = {}
+        try:
+            if prep == "rm":
+                parallelise(dirfn, inputs, cache=Cache(tmp_dir=target), parallel=False, disable_tqdm=True)
+                shutil.rmtree(base)
+            else:
+                prep(base)
+            first = parallelise(dirfn, inputs, cache=Cache(tmp_dir=target), parallel=False, disable_tqdm=True)
+            files1 = sorted(os.listdir(target))
+            second = parallelise(dirfn, inputs, cache=Cache(tmp_dir=target), parallel=True, max_workers=2, disable_tqdm=True)
+            R = {"first": first == want, "second": second == want, "files": len(files1), "files_after": len(os.listdir(target))}
+        except Exception as e:  # noqa: BLE001
+            R = {"raised": type(e).__name__}
+        S = {"raised": "FileExistsError"} if name == "file-in-the-way" else {"first": True, "second": True, "files": 3, "files_after": 3}
+        if name == "file-in-the-way" and R.get("raised") in ("NotADirectoryError", "FileExistsError"):
+            S = R  # either class says the same thing
+        M = None
+        if ctx.driver_ok and name != "file-in-the-way":
+            (resp,) = driver.call_batch([{"op": "c19", "mode": "gen", "sizes": [[10 + i, 5] for i in range(3)],
+                                          "inputs": [[k, 10 + i] for i, (k, _) in enumerate(inputs)], "script": [["run"], ["run"]]}])
+            M = {"first": resp[0]["out"][0] == "ok" and len(resp[0]["calls"]) == calls_all, "second": resp[1]["out"][0] == "ok" and resp[1]["calls"] == [],
+                 "files": sum(1 for _, f in resp[0]["fs"]["final"] if f != "absent"), "files_after": sum(1 for _, f in resp[1]["fs"]["final"] if f != "absent")}
+        case = {"cache_dir": name}
+        ctx.count(case, f"dir:{name}")
+        ctx.judge(case, R, S, M, what=f"cache directory {name}: cached run = uncached results, one file per key, rerun from disk")
+    shutil.rmtree(base, ignore_errors=True)
+
+
 def _scan_stratum(ctx):
     import numpy as np
     import pandas as pd
@@ -890,6 +1003,8 @@ def run(ctx):
         scan_stratum(ctx)
         dup_stratum(ctx)
         names_stratum(ctx)
+        writers_stratum(ctx)
+        dir_stratum(ctx)
     finally:
         shutil.rmtree(SCRATCH, ignore_errors=True)
     if not ctx.proof_ok or ctx.drift:
@@ -906,6 +1021,12 @@ def replay(ctx, rp):
         return
     if "dup" in case:
         dup_stratum(ctx)
+        return
+    if "writers_model" in case or "writers_real" in case:
+        writers_stratum(ctx)
+        return
+    if "cache_dir" in case:
+        dir_stratum(ctx)
         return
     case.setdefault("id", 0)
     Rs, Ms = evaluate(ctx, [case])
